@@ -28,7 +28,7 @@ Inductive outcome := Ok (r : list T) | NonFinite | TypeErr | ValueErr.
 
 Definition schemes_of (k : ikind) (ss : list scheme) (cvs : list (list T)) : list scheme :=
   match k with
-  | KLinear => map (fun _ => SLinear) cvs
+  | KLinear => map (fun _ => gen_linear_scheme) cvs      (* regenerated: interp=['linear'] * d *)
   | KNearest => map (fun _ => SNearest) cvs
   | KPerAxis => ss
   end.
@@ -43,7 +43,7 @@ Definition run (var : variants) (k : ikind) (ss : list scheme) (cvs : list (list
   let v := vget (map (@length T) cvs) flat in
   let index_based := match k with
                      | KNearest => true
-                     | KPerAxis => negb (int_raises var) && negb (has_linear ss)
+                     | KPerAxis => negb (int_raises var) && gen_peraxis_index_based ss   (* regenerated dispatch *)
                      | KLinear => false
                      end in
   match index_based, i with
@@ -71,28 +71,35 @@ Fixpoint nats_eqb (a b : list nat) : bool :=
   | x :: a', y :: b' => (x =? y)%nat && nats_eqb a' b'
   | _, _ => false
   end.
-Definition malformed (cvs : list (list T)) (i : input) (outarg : option (list nat * bool)) : bool :=
+(* the ordered `out` checks are REGENERATED from _Interpolator.__call__ (gen_out_check) *)
+Definition rejected (cvs : list (list T)) (i : input) (outarg : option (list nat * bool)) : option errkind :=
   let d := length cvs in
-  (match i with
-   | IPoints pts => existsb (fun p => negb (length p =? d)%nat) pts
-   | IMesh m => negb (length m =? d)%nat
-   end)
-  || match outarg with
-     | Some (sh, dt_ok) => negb (nats_eqb sh (out_shape i)) || negb dt_ok
-     | None => false
-     end.
+  if (match i with
+      | IPoints pts => existsb (fun p => negb (length p =? d)%nat) pts
+      | IMesh m => negb (length m =? d)%nat
+      end) then Some EValueErr
+  else match outarg with
+       | Some (sh, dt_ok) => gen_out_check true (nats_eqb sh (out_shape i)) dt_ok
+       | None => None
+       end.
+Definition malformed (cvs : list (list T)) (i : input) (outarg : option (list nat * bool)) : bool :=
+  match rejected cvs i outarg with Some _ => true | None => false end.
 
 (* integer / string values: only index-based evaluation is defined; the per-axis evaluator does
    arithmetic on the values (TypeError) whenever some axis is 'linear' *)
 Definition interp_call (var : variants) (k : ikind) (ss : list scheme) (cvs : list (list T)) (dt : vdtype)
            (flat : list T) (i : input) (outarg : option (list nat * bool)) : outcome :=
-  if malformed cvs i outarg then ValueErr
-  else if mesh1_raises var && mesh1 i then ValueErr
+  match rejected cvs i outarg with
+  | Some ETypeErr => TypeErr
+  | Some EValueErr => ValueErr
+  | None =>
+  if mesh1_raises var && mesh1 i then ValueErr
   else match k, dt with
   | KNearest, _ => Ok (run var k ss cvs flat i)
   | _, DInt | _, DStr =>
       if int_raises var || has_linear (schemes_of k ss cvs) then TypeErr else Ok (run var k ss cvs flat i)
   | _, DFloat =>
       if degenerate (schemes_of k ss cvs) cvs then NonFinite else Ok (run var k ss cvs flat i)
+  end
   end.
 End Call.
